@@ -448,10 +448,41 @@ def resolution(ctx, s):
             n3 += 1
             for df in diffs[:3]:
                 ctx.violation("Y3", f"{df}", f"{f}..{l}", f"the environment changes inside the interval {f}..{l} that no change date explains: {df}")
+    if ctx.tier == "thorough":
+        every_day(ctx, s, iv)
     ctx.extra_cov["intervals"] = len(iv)
     ctx.extra_cov["first_interval"] = str(iv[0][0])
     ctx.extra_cov["last_interval"] = str(iv[-1][0])
     ctx.floor("Y2", 100)
+
+
+def every_day(ctx, s, iv):
+    """thorough: the environment fingerprint (parameters without the date stamp + set of active
+    implementations) of EVERY calendar day equals that of the first day of its interval, i.e. the
+    timeline of change dates is complete and one sample per interval covers every day in it"""
+    from staticlib.session import env_fingerprint, parallel_map
+
+    ctx.rule("Y3d", "every calendar day from 1980-01-01 to one year after the last entry has the same environment fingerprint (all parameter values, all rounding specs, set of active implementations) as the first day of its equivalence interval")
+    days = []
+    owner = {}
+    for f, l in iv:
+        if f < datetime.date(1980, 1, 1):
+            continue
+        d = f
+        while d <= l:
+            days.append(d)
+            owner[d] = f
+            d += datetime.timedelta(days=1)
+    fps = parallel_map(ctx.root, env_fingerprint, days, chunksize=64)
+    bad = 0
+    for d in days:
+        ok = fps[d] == fps[owner[d]]
+        ctx.ob("Y3d", ok=ok, distinct=str(owner[d]))
+        if not ok and bad < 5:
+            bad += 1
+            ctx.violation("Y3d", f"{owner[d]}|{d}", f"{d}", f"the environment on {d} differs from the one on {owner[d]} although no change date lies between them: a date dependence that neither the parameter files nor the decorators declare")
+    ctx.extra_cov["calendar_days_fingerprinted"] = len(days)
+    ctx.floor("Y3d", 15000)
 
 
 def _env_diff(a, b, derived_paths, path=""):
